@@ -137,6 +137,19 @@ Theorem C07_project : forall f k b iv sp,
 Proof. exact project_spec. Qed.
 Print Assumptions C07_project.
 
+(* the same slice in terms of the stored element list, compressed format: the non-empty
+   stored elements whose image lies in the interval, each payload under its image, in stored
+   order for an increasing map and turned around for a decreasing one *)
+Theorem C07_project_compressed : forall f k b iv,
+  f_isU f = false ->
+  map strip_y (spec_project f k b iv)
+  = (if k <? 0 then @rev (Z * tree) else fun l => l)
+      (map (fun ct => (k * fst ct + b, snd ct))
+           (filter (fun ct => in_iv iv (k * fst ct + b) && negb (is_empty (f_d f) (snd ct)))
+                   (f_es f))).
+Proof. exact project_compressed. Qed.
+Print Assumptions C07_project_compressed.
+
 (* ... in ascending order of the new coordinates, also for order-reversing maps *)
 Theorem C07_project_sorted : forall f k b iv,
   ssorted (map fst (f_es f)) = true -> k <> 0 ->
